@@ -1,49 +1,139 @@
-// C02: TimerEvent / TimerPool on the real loop under a virtual monotonic clock (engine H).
-// usage: harness timer <engine> <depth> <config> | harness pool <engine> <depth>
+// C02: TimerEvent / TimerPool on the real loop under a virtual monotonic clock (engine H + engine I lanes).
+// usage: harness timer <engine> <depth> <config> [part nparts]
+//        harness pool  <engine> <depth> 0 [part nparts]          (C02_POOLED=1: timer records recycled by the loop's object pool)
+//        harness heap  <engine> <n> [part nparts]                (one-shot timers, one removal before anything fired)
+//        harness heapb <engine> <n> [part nparts] [pooled]       (persistent timers, removal at tick k, top level or inside a callback)
 #include "hist/hist.h"
 #include <tbox/event/loop.h>
 #include <tbox/event/timer_event.h>
 #include <tbox/event/common_loop.h>
-#include <tbox/eventx/timer_pool.h>
+#include <tbox/eventx/timer_pool.cpp>      // included (not linked) so that TimerPool::Impl's own cabinet can be read for the state key
 #include <time.h>
 #include <sys/time.h>
+#include <sys/epoll.h>
+#include <sys/select.h>
+#include <sys/syscall.h>
+#include <errno.h>
 
+// ---------------------------------------------------------------------------------------------
+// seams: virtual clock (only while code under test runs: the engine's deadline keeps reading the real clock) and a
+// simulated back-end sleep (only inside run-for: a positive poll timeout advances the virtual clock by exactly that much).
 static long long vnow = 1000000;     // virtual milliseconds
-extern "C" int clock_gettime(clockid_t, struct timespec *ts) { ts->tv_sec = vnow / 1000; ts->tv_nsec = (vnow % 1000) * 1000000; return 0; }
-extern "C" int gettimeofday(struct timeval *tv, void *) { if (tv) { tv->tv_sec = vnow / 1000; tv->tv_usec = (vnow % 1000) * 1000; } return 0; }
+static bool g_virt = false;
+struct Virt { Virt() { g_virt = true; } ~Virt() { g_virt = false; } };
+extern "C" int clock_gettime(clockid_t id, struct timespec *ts) { if (!g_virt) return (int)syscall(SYS_clock_gettime, id, ts); ts->tv_sec = vnow / 1000; ts->tv_nsec = (vnow % 1000) * 1000000; return 0; }
+extern "C" int gettimeofday(struct timeval *tv, void *tz) { if (!g_virt) return (int)syscall(SYS_gettimeofday, tv, tz); if (tv) { tv->tv_sec = vnow / 1000; tv->tv_usec = (vnow % 1000) * 1000; } return 0; }
+static double real_now_s() { struct timespec ts; syscall(SYS_clock_gettime, CLOCK_MONOTONIC, &ts); return ts.tv_sec + ts.tv_nsec * 1e-9; }
+static std::function<void(long long)> g_on_wait;     // argument: the timeout the loop asked for in ms, -1 = "block for ever"
+extern "C" int epoll_wait(int epfd, struct epoll_event *ev, int maxev, int timeout) {
+  if (g_on_wait) g_on_wait(timeout < 0 ? -1 : timeout);
+  if (g_virt) timeout = 0;                            // virtual time never passes by itself
+  return (int)syscall(SYS_epoll_pwait, epfd, ev, maxev, timeout, (void *)0, (size_t)8);
+}
+extern "C" int select(int n, fd_set *r, fd_set *w, fd_set *e, struct timeval *tv) {
+  struct timeval z = {0, 0};
+  if (tv && (tv->tv_sec < 0 || tv->tv_usec < 0)) { errno = EINVAL; return -1; }      // what the kernel answers; not to be masked by the simulation
+  // a sub-millisecond timeout still lets real time pass: on the millisecond clock it is rounded up
+  if (g_on_wait) g_on_wait(tv ? (long long)tv->tv_sec * 1000 + (tv->tv_usec + 999) / 1000 : -1);
+  if (g_virt) tv = &z;
+#ifdef SYS_select
+  return (int)syscall(SYS_select, n, r, w, e, tv);
+#else
+  struct timespec zs = {0, 0}; struct timespec rs; if (tv) { rs.tv_sec = tv->tv_sec; rs.tv_nsec = tv->tv_usec * 1000; }
+  return (int)syscall(SYS_pselect6, n, r, w, e, g_virt ? &zs : (tv ? &rs : (struct timespec *)0), (void *)0);
+#endif
+}
 using namespace tbox::event;
-
-enum K { ENABLE, DISABLE, DESTROY, ADVANCE, SCRIPT, REINIT };
-enum A { NONE, DIS_SELF, DIS_OTHER, DESTROY_OTHER, REENABLE_SELF, ENABLE_OTHER, RESTART_OTHER };
-struct Op { int k, t, a, o; };
-static const char *kN[] = {"enable", "disable", "destroy", "advance+pass", "script", "reinit"};
-static const char *aN[] = {"none", "disable-self", "disable-other", "destroy-other", "reenable-self", "enable-other", "restart-other"};
+typedef std::chrono::milliseconds ms;
 
 static void pass(Loop *loop) { loop->runNext([] {}); loop->runLoop(Loop::Mode::kOnce); }
 
+// shape of a cabinet: cells (used / free-list link), head of the free list
+template <class C> static std::string cab_shape(const C &cab, bool with_id) {
+  std::string s = "["; char b[48];
+  for (auto &c : cab.cells_) { if (c.id != 0) s += "u,"; else { snprintf(b, 48, "f%ld,", c.next_free == std::numeric_limits<size_t>::max() ? -1L : (long)c.next_free); s += b; } }
+  snprintf(b, 48, "]h%ld", cab.first_free_ == std::numeric_limits<size_t>::max() ? -1L : (long)cab.first_free_); s += b;
+  if (with_id) { snprintf(b, 48, "i%zu", (size_t)cab.last_id_); s += b; }
+  return s;
+}
+// the loop's timer heap in ARRAY order (two layouts of the same multiset are different states) + the timer cabinet's shape
+static std::string heap_key(CommonLoop *cl) {
+  std::string c; char b[64];
+  for (auto *x : cl->timer_min_heap_) { snprintf(b, 64, "%lld/%llu/%llu,", (long long)x->expired - vnow, (unsigned long long)x->interval, (unsigned long long)x->repeat); c += b; }
+  c += "#" + std::to_string(cl->timer_cabinet_.size()) + cab_shape(cl->timer_cabinet_, false);
+  return c;
+}
+
+// ---------------------------------------------------------------------------------------------
+enum K { ENABLE, DISABLE, DESTROY, ADVANCE, SCRIPT, REINIT, TICK, RUNFOR };
+enum A { NONE, SLOW, DIS_SELF, DIS_OTHER, DESTROY_OTHER, REENABLE_SELF, ENABLE_OTHER, RESTART_OTHER, REINIT_SELF, REINIT_EN_SELF, REINIT_OTHER, REINIT_EN_OTHER, EXIT_LOOP };
+enum R { R_SAME, R_IV, R_MODE, R_LEGACY };
+struct Op { int k, t, a, o, d, r; };     // script: timer t's callback first lets d ms pass (a slow callback), then does a to o (reinit kind r)
+static const char *kN[] = {"enable", "disable", "destroy", "advance+pass", "script", "reinit", "tick", "exitLoop+runForever"};
+static const char *aN[] = {"none", "slow", "disable-self", "disable-other", "destroy-other", "reenable-self", "enable-other", "restart-other", "reinit-self", "reinit+enable-self", "reinit-other", "reinit+enable-other", "exitLoop(2)"};
+static const char *rN[] = {"same-params", "other-interval", "other-mode", "interval0+1"};
+
+struct Cfg { int nt; int iv[4]; bool per[4]; int reinit_mask; bool reinit_kinds; bool runfor; bool pooled; int nadv; int adv[5]; };
+static const Cfg CFGS[] = {
+  {3, {2, 3, 2, 0}, {true, false, true, false}, 3, false, false, false, 5, {0, 1, 2, 3, 7}},
+  {4, {1, 5, 3, 2}, {true, false, true, false}, 3, false, false, false, 5, {0, 1, 2, 3, 7}},
+  {4, {2, 2, 2, 2}, {true, true, false, false}, 3, false, false, false, 5, {0, 1, 2, 3, 7}},
+  // 3: re-initialisation configuration: initialize() with the same parameters / another interval / the other mode, top level and inside callbacks
+  {2, {2, 3, 0, 0}, {true, false, false, false}, 3, true, false, false, 5, {0, 1, 2, 3, 7}},
+  // 4: sleeping configuration: exitLoop(T) + runLoop(kForever) with the back-end's sleep simulated exactly; timer records pooled
+  {3, {2, 3, 3, 0}, {true, false, true, false}, 0, false, true, true, 2, {0, 3}},
+};
+static const int NCFG = sizeof(CFGS) / sizeof(CFGS[0]);
+
+static bool basic_script(const Op &o) { return o.k == SCRIPT && o.d == 0 && (o.a == DIS_SELF || o.a == DIS_OTHER || o.a == DESTROY_OTHER || o.a == REENABLE_SELF || o.a == ENABLE_OTHER || o.a == RESTART_OTHER); }
+
 static int g_part = 0, g_nparts = 1;
 static int timer_mode(const std::string &eng, size_t depth, int config) {
-  static const int IVS[3][4] = {{2, 3, 2, 0}, {1, 5, 3, 2}, {2, 2, 2, 2}}; static const bool PER[3][4] = {{true, false, true, false}, {true, false, true, false}, {true, true, false, false}};
-  static const int NTS[3] = {3, 4, 4};
-  const int NT = NTS[config]; const int *IV0 = IVS[config]; const bool *PERSIST = PER[config];
+  const Cfg &C = CFGS[config]; const int NT = C.nt; const int *IV0 = C.iv; const bool *PER0 = C.per;
   hx::Explorer<Op> ex; ex.name = "timer-" + eng + "-cfg" + std::to_string(config) + "-part" + std::to_string(g_part); ex.deadline_s = hx::deadline_from_env(600); ex.part = g_part; ex.nparts = g_nparts;
-  ex.show = [](const Op &o) { char b[64]; if (o.k == SCRIPT) snprintf(b, 64, "script(t%d:%s->t%d)", o.t, aN[o.a], o.o); else if (o.k == ADVANCE) snprintf(b, 64, "advance(%d)+pass", o.a); else snprintf(b, 64, "%s(t%d)", kN[o.k], o.t); return std::string(b); };
+  ex.show = [](const Op &o) { char b[96];
+    if (o.k == SCRIPT) { int n = snprintf(b, 96, "script(t%d:", o.t); if (o.d) n += snprintf(b + n, 96 - n, "slow%d+", o.d); n += snprintf(b + n, 96 - n, "%s", aN[o.a]); if (o.a >= REINIT_SELF && o.a <= REINIT_EN_OTHER) n += snprintf(b + n, 96 - n, "[%s]", rN[o.r]); snprintf(b + n, 96 - n, "->t%d)", o.o); }
+    else if (o.k == ADVANCE) snprintf(b, 96, "advance(%d)+pass", o.a); else if (o.k == TICK) snprintf(b, 96, "tick(%d)", o.a); else if (o.k == RUNFOR) snprintf(b, 96, "exitLoop(%d)+runLoop(forever)", o.a);
+    else if (o.k == REINIT) snprintf(b, 96, "reinit(t%d,%s)", o.t, rN[o.r]); else snprintf(b, 96, "%s(t%d)", kN[o.k], o.t); return std::string(b); };
+  // all callback scripts of one timer; the "basic" ones (no slow callback, no reinit) may also be combined in pairs
+  auto scripts_of = [&](int t, bool basic_only, std::vector<Op> &m) {
+    std::vector<int> kinds; if (C.reinit_kinds) { kinds = {R_SAME, R_IV, R_MODE}; } else kinds = {R_SAME};
+    m.push_back({SCRIPT, t, DIS_SELF, t, 0, 0}); m.push_back({SCRIPT, t, REENABLE_SELF, t, 0, 0});
+    for (int o = 0; o < NT; o++) if (o != t) for (int a : {DIS_OTHER, DESTROY_OTHER, ENABLE_OTHER, RESTART_OTHER}) m.push_back({SCRIPT, t, a, o, 0, 0});
+    if (basic_only) return;
+    m.push_back({SCRIPT, t, SLOW, t, 2, 0}); m.push_back({SCRIPT, t, REENABLE_SELF, t, 2, 0});
+    for (int r : kinds) { m.push_back({SCRIPT, t, REINIT_SELF, t, 0, r}); m.push_back({SCRIPT, t, REINIT_EN_SELF, t, 0, r}); if (C.reinit_kinds) m.push_back({SCRIPT, t, REINIT_EN_SELF, t, 2, r}); }
+    for (int o = 0; o < NT; o++) if (o != t) {
+      m.push_back({SCRIPT, t, ENABLE_OTHER, o, 2, 0}); m.push_back({SCRIPT, t, RESTART_OTHER, o, 2, 0});
+      for (int r : kinds) { m.push_back({SCRIPT, t, REINIT_OTHER, o, 0, r}); m.push_back({SCRIPT, t, REINIT_EN_OTHER, o, 0, r}); if (C.reinit_kinds) m.push_back({SCRIPT, t, REINIT_EN_OTHER, o, 2, r}); } }
+    if (C.runfor) m.push_back({SCRIPT, t, EXIT_LOOP, t, 0, 0});
+  };
   ex.menu = [&](const std::vector<Op> &h) {
     std::vector<Op> m;
-    for (int t = 0; t < NT; t++) { m.push_back({ENABLE, t, 0, 0}); m.push_back({DISABLE, t, 0, 0}); m.push_back({DESTROY, t, 0, 0}); }
-    for (int d : {0, 1, 2, 3, 7}) m.push_back({ADVANCE, 0, d, 0});
-    m.push_back({REINIT, 0, 0, 0}); m.push_back({REINIT, 1, 0, 0});
-    bool only_scripts = true; for (auto &o : h) if (o.k != SCRIPT) only_scripts = false;
-    if (only_scripts && h.size() < 2) for (int t = 0; t < NT; t++) { m.push_back({SCRIPT, t, DIS_SELF, t}); m.push_back({SCRIPT, t, REENABLE_SELF, t});
-      for (int o = 0; o < NT; o++) if (o != t) for (int a : {DIS_OTHER, DESTROY_OTHER, ENABLE_OTHER, RESTART_OTHER}) m.push_back({SCRIPT, t, a, o}); }
+    for (int t = 0; t < NT; t++) { m.push_back({ENABLE, t, 0, 0, 0, 0}); m.push_back({DISABLE, t, 0, 0, 0, 0}); m.push_back({DESTROY, t, 0, 0, 0, 0}); }
+    for (int i = 0; i < C.nadv; i++) m.push_back({ADVANCE, 0, C.adv[i], 0, 0, 0});
+    m.push_back({TICK, 0, 3, 0, 0, 0});                 // the clock moves on but the loop does not run: the next op meets overdue timers
+    if (C.runfor) for (int T : {1, 4, 7}) m.push_back({RUNFOR, 0, T, 0, 0, 0});
+    for (int t = 0; t < NT; t++) if (C.reinit_mask & (1 << t)) { if (C.reinit_kinds) { for (int r : {R_SAME, R_IV, R_MODE}) m.push_back({REINIT, t, 0, 0, 0, r}); } else m.push_back({REINIT, t, 0, 0, 0, R_LEGACY}); }
+    if (h.empty()) for (int t = 0; t < NT; t++) scripts_of(t, false, m);
+    else if (h.size() == 1 && basic_script(h[0])) for (int t = h[0].t + 1; t < NT; t++) scripts_of(t, true, m);     // pairs: on two different timers, order irrelevant
     return m; };
   ex.run = [&](const std::vector<Op> &h, std::string &viol) {
-    vnow = 1000000; Loop *loop = Loop::New(eng); auto cl = static_cast<CommonLoop *>(loop); cl->timer_object_pool_.keep_number_ = 0;   // de-pool: ASan sees stale Timer records
-    TimerEvent *tm[4]; bool alive[4]; int act[4] = {0, 0, 0, 0}, oth[4] = {0, 0, 0, 0}; int IV[4]; long fires[4] = {0, 0, 0, 0};
+    Virt virt;
+    vnow = 1000000; Loop *loop = Loop::New(eng); auto cl = static_cast<CommonLoop *>(loop);
+    if (!C.pooled) cl->timer_object_pool_.keep_number_ = 0;   // de-pool: ASan sees stale Timer records
+    TimerEvent *tm[4]; bool alive[4]; int act[4] = {0, 0, 0, 0}, oth[4] = {0, 0, 0, 0}, slow[4] = {0, 0, 0, 0}, rk[4] = {0, 0, 0, 0}; int IV[4]; bool PER[4]; long fires[4] = {0, 0, 0, 0};
     struct M { bool en = false; long long dl = 0; }; M md[4]; long long last_dl = -1;
-    for (int t = 0; t < NT; t++) { IV[t] = IV0[t]; tm[t] = loop->newTimerEvent("t"); tm[t]->initialize(std::chrono::milliseconds(IV[t]), PERSIST[t] ? Event::Mode::kPersist : Event::Mode::kOneshot); alive[t] = true; }
-    auto m_enable = [&](int t) { if (!md[t].en) { md[t].en = true; md[t].dl = vnow + IV[t]; } };      // a (re-)enable starts a fresh full interval
+    long long now0 = vnow;                 // the clock when the current loop pass woke up
+    long long exit_dl = -1; bool exit_used = false, exit_ambig = false, in_runfor = false;
+    for (int t = 0; t < NT; t++) { IV[t] = IV0[t]; PER[t] = PER0[t]; tm[t] = loop->newTimerEvent("t"); tm[t]->initialize(ms(IV[t]), PER[t] ? Event::Mode::kPersist : Event::Mode::kOneshot); alive[t] = true; }
+    auto m_enable = [&](int t) { if (!md[t].en) { md[t].en = true; md[t].dl = vnow + IV[t]; } };      // a (re-)enable starts a fresh full interval from the clock's value NOW
     auto m_disable = [&](int t) { md[t].en = false; };
+    auto do_reinit = [&](int t, int r) {   // initialize() leaves the timer disabled, whatever the parameters
+      switch (r) { case R_SAME: break; case R_IV: IV[t] = (IV[t] == IV0[t]) ? IV0[t] + 1 : IV0[t]; break; case R_MODE: PER[t] = !PER[t]; break; default: IV[t] = IV0[t] + 1; }
+      tm[t]->initialize(ms(IV[t]), PER[t] ? Event::Mode::kPersist : Event::Mode::kOneshot); m_disable(t); };
+    auto undue = [&] { for (int t = 0; t < NT; t++) if (viol.empty() && alive[t] && md[t].en && md[t].dl <= now0) viol = "due-timer-did-not-fire";   // no period skipped, however late the loop woke
+      if (exit_dl >= 0 && exit_dl <= now0 && !in_runfor) exit_dl = -1; };
     for (int t = 0; t < NT; t++) tm[t]->setCallback([&, t] {
       if (!viol.empty()) return;
       if (!alive[t]) { viol = "callback-on-destroyed-timer"; return; }
@@ -51,8 +141,9 @@ static int timer_mode(const std::string &eng, size_t depth, int config) {
       if (vnow < md[t].dl) { viol = "fired-early"; return; }
       for (int u = 0; u < NT; u++) if (alive[u] && md[u].en && md[u].dl < md[t].dl) { viol = "not-in-deadline-order"; return; }
       if (md[t].dl < last_dl) { viol = "deadline-order-regress"; return; } last_dl = md[t].dl; fires[t]++;
-      if (PERSIST[t]) md[t].dl += IV[t]; else { md[t].en = false; if (tm[t]->isEnabled()) { viol = "oneshot-still-enabled-in-its-callback"; return; } }
+      if (PER[t]) md[t].dl += IV[t]; else { md[t].en = false; if (tm[t]->isEnabled()) { viol = "oneshot-still-enabled-in-its-callback"; return; } }
       int o = oth[t];
+      vnow += slow[t];                      // a slow callback: the clock moves while the pass is still running
       switch (act[t]) {
         case DIS_SELF: tm[t]->disable(); m_disable(t); break;
         case DIS_OTHER: if (alive[o]) { tm[o]->disable(); m_disable(o); } break;
@@ -60,50 +151,72 @@ static int timer_mode(const std::string &eng, size_t depth, int config) {
         case REENABLE_SELF: tm[t]->disable(); m_disable(t); tm[t]->enable(); m_enable(t); break;
         case ENABLE_OTHER: if (alive[o]) { tm[o]->enable(); m_enable(o); } break;
         case RESTART_OTHER: if (alive[o]) { tm[o]->disable(); m_disable(o); tm[o]->enable(); m_enable(o); } break;
+        case REINIT_SELF: do_reinit(t, rk[t]); break;
+        case REINIT_EN_SELF: do_reinit(t, rk[t]); tm[t]->enable(); m_enable(t); break;
+        case REINIT_OTHER: if (alive[o]) do_reinit(o, rk[t]); break;
+        case REINIT_EN_OTHER: if (alive[o]) { do_reinit(o, rk[t]); tm[o]->enable(); m_enable(o); } break;
+        case EXIT_LOOP: if (!exit_used) { exit_used = true; if (in_runfor && exit_dl >= 0 && exit_dl <= now0) exit_ambig = true;   // the old exit timer is due in this very pass: it may or may not have fired already
+            loop->exitLoop(ms(2)); exit_dl = vnow + 2; } break;
       } });
     for (auto &o : h) { if (!viol.empty()) break;
       switch (o.k) {
         case ENABLE: if (alive[o.t]) { tm[o.t]->enable(); m_enable(o.t); } break;
         case DISABLE: if (alive[o.t]) { tm[o.t]->disable(); m_disable(o.t); } break;
         case DESTROY: if (alive[o.t]) { m_disable(o.t); alive[o.t] = false; delete tm[o.t]; tm[o.t] = nullptr; } break;
-        case REINIT: if (alive[o.t]) { IV[o.t] = IV0[o.t] + 1; tm[o.t]->initialize(std::chrono::milliseconds(IV[o.t]), PERSIST[o.t] ? Event::Mode::kPersist : Event::Mode::kOneshot); m_disable(o.t); } break;
-        case ADVANCE: { vnow += o.a; last_dl = -1; pass(loop);
-          for (int t = 0; t < NT; t++) if (viol.empty() && alive[t] && md[t].en && md[t].dl <= vnow) viol = "due-timer-did-not-fire";   // no period skipped, however late the loop woke
+        case REINIT: if (alive[o.t]) do_reinit(o.t, o.r); break;
+        case TICK: vnow += o.a; break;
+        case ADVANCE: vnow += o.a; now0 = vnow; last_dl = -1; pass(loop); undue(); break;
+        case RUNFOR: {   // exitLoop(T) then runLoop(kForever): the loop decides itself how long to sleep; the sleep is exact
+          loop->exitLoop(ms(o.a)); exit_dl = vnow + o.a; exit_ambig = false; in_runfor = true; int wakeups = 0, zero_run = 0; bool first = true;
+          g_on_wait = [&](long long to) {
+            if (!first) undue(); first = false;
+            if (++wakeups > 200) { if (viol.empty()) viol = "loop-did-not-return-after-exit-wait"; cl->stopLoop(); return; }
+            if (to < 0) { if (viol.empty()) viol = "loop-sleeps-for-ever-with-a-timer-pending"; cl->stopLoop(); }     // the exit timer (at least) is pending during run-for
+            else if (to > 0) { vnow += to; zero_run = 0; }
+            else if (++zero_run >= 8) { vnow += 1; zero_run = 0; }      // polling without sleeping: real time passes anyway
+            now0 = vnow; last_dl = -1; };
+          loop->runLoop(Loop::Mode::kForever); g_on_wait = nullptr; in_runfor = false; undue();
+          if (viol.empty() && !exit_ambig && now0 < exit_dl) viol = "loop-returned-before-exit-wait-elapsed";
+          exit_dl = -1;
         } break;
-        case SCRIPT: act[o.t] = o.a; oth[o.t] = o.o; break; }
+        case SCRIPT: act[o.t] = o.a; oth[o.t] = o.o; slow[o.t] = o.d; rk[o.t] = o.r; break; }
       for (int t = 0; t < NT && viol.empty(); t++) if (alive[t] && tm[t]->isEnabled() != md[t].en) viol = "isEnabled-mismatch";
     }
-    std::string c; for (int t = 0; t < NT; t++) { char b[64]; snprintf(b, 64, "%d%d:%lld:%d:%d%d|", (int)alive[t], (int)md[t].en, md[t].en ? md[t].dl - vnow : 0, IV[t], act[t], oth[t]); c += b; }
-    // heap as multiset of (deadline-now, interval, repeat)
-    std::vector<std::string> hp; for (auto *x : cl->timer_min_heap_) { char b[64]; snprintf(b, 64, "%lld/%llu/%llu", (long long)x->expired - vnow, (unsigned long long)x->interval, (unsigned long long)x->repeat); hp.push_back(b); }
-    std::sort(hp.begin(), hp.end()); for (auto &s : hp) c += s + ","; c += "#" + std::to_string(cl->timer_cabinet_.size());
+    std::string c; for (int t = 0; t < NT; t++) { char b[96]; snprintf(b, 96, "%d%d%d:%lld:%d:%d.%d.%d.%d|", (int)alive[t], (int)md[t].en, (int)PER[t], md[t].en ? md[t].dl - vnow : 0, IV[t], act[t], oth[t], slow[t], rk[t]); c += b; }
+    { char b[64]; snprintf(b, 64, "x%lld.%d.%d|", exit_dl >= 0 ? exit_dl - vnow : -1, (int)exit_used, (int)(cl->sp_exit_timer_ != nullptr)); c += b; }
+    c += heap_key(cl);
     for (int t = 0; t < NT; t++) if (alive[t]) delete tm[t];
     pass(loop); delete loop; return c; };
   ex.explore(depth); return 0;
 }
 
 // ---------------------------------------------------------------------------------------------
-enum PK { P_EVERY, P_AFTER, P_CANCEL, P_ADVANCE, P_CLEANUP, P_AT };
-enum PA { PA_NONE, PA_CANCEL_SELF, PA_CANCEL_OLDER, PA_CLEANUP_THEN_AFTER, PA_ADD_AFTER };
-static const char *paN[] = {"none", "cancel-self", "cancel-older", "cleanup-then-doAfter", "add-doAfter"};
+enum PK { P_EVERY, P_AFTER, P_CANCEL, P_ADVANCE, P_CLEANUP, P_AT, P_TICK };
+enum PA { PA_NONE, PA_CANCEL_SELF, PA_CANCEL_OLDER, PA_CLEANUP_THEN_AFTER, PA_ADD_AFTER, PA_SLOW_ADD_AFTER };
+static const char *paN[] = {"none", "cancel-self", "cancel-older", "cleanup-then-doAfter", "add-doAfter", "slow2-then-add-doAfter"};
 struct POp { int k, a, b; };
 static int pool_mode(const std::string &eng, size_t depth) {
   using tbox::eventx::TimerPool;
-  hx::Explorer<POp> ex; ex.name = "pool-" + eng + "-part" + std::to_string(g_part); ex.deadline_s = hx::deadline_from_env(600); ex.part = g_part; ex.nparts = g_nparts;
-  ex.show = [](const POp &o) { char b[64]; switch (o.k) { case P_EVERY: snprintf(b, 64, "doEvery(%d,%s)", o.a, paN[o.b]); break; case P_AFTER: snprintf(b, 64, "doAfter(%d,%s)", o.a, paN[o.b]); break; case P_AT: snprintf(b, 64, "doAt(now+%d,%s)", o.a, paN[o.b]); break; case P_CANCEL: snprintf(b, 64, "cancel(#%d)", o.a); break; case P_ADVANCE: snprintf(b, 64, "advance(%d)+pass", o.a); break; default: snprintf(b, 64, "cleanup"); } return std::string(b); };
+  const bool pooled = hx::env_int("C02_POOLED", 0) != 0;
+  hx::Explorer<POp> ex; ex.name = "pool-" + eng + (__cplusplus >= 201402L ? "-cxx14" : "-cxx11") + (pooled ? "-pooled" : "") + "-part" + std::to_string(g_part); ex.deadline_s = hx::deadline_from_env(600); ex.part = g_part; ex.nparts = g_nparts;
+  ex.show = [](const POp &o) { char b[64]; switch (o.k) { case P_EVERY: snprintf(b, 64, "doEvery(%d,%s)", o.a, paN[o.b]); break; case P_AFTER: snprintf(b, 64, "doAfter(%d,%s)", o.a, paN[o.b]); break; case P_AT: snprintf(b, 64, "doAt(now+%d,%s)", o.a, paN[o.b]); break; case P_CANCEL: snprintf(b, 64, "cancel(#%d)", o.a); break; case P_ADVANCE: snprintf(b, 64, "advance(%d)+pass", o.a); break; case P_TICK: snprintf(b, 64, "tick(%d)", o.a); break; default: snprintf(b, 64, "cleanup"); } return std::string(b); };
   ex.menu = [&](const std::vector<POp> &h) {
     std::vector<POp> m; int issued = 0; for (auto &o : h) if (o.k == P_EVERY || o.k == P_AFTER || o.k == P_AT) issued++;
-    if (issued < 3) for (int iv : {1, 2}) for (int a = 0; a <= PA_ADD_AFTER; a++) { m.push_back({P_EVERY, iv, a}); m.push_back({P_AFTER, iv, a}); }
-    if (issued < 3) m.push_back({P_AT, 2, PA_NONE});       // absolute wall-clock time point (the virtual clock serves every clock id)
+    if (issued < 3) for (int iv : {1, 2}) for (int a = 0; a <= PA_SLOW_ADD_AFTER; a++) { m.push_back({P_EVERY, iv, a}); m.push_back({P_AFTER, iv, a}); }
+    if (issued < 3) { m.push_back({P_AT, 2, PA_NONE}); m.push_back({P_AT, 1, PA_CANCEL_OLDER}); }      // absolute wall-clock time point (the virtual clock serves every clock id)
     for (int i = 0; i < issued; i++) m.push_back({P_CANCEL, i, 0});
     for (int d : {0, 1, 2, 5}) m.push_back({P_ADVANCE, d, 0});
+    m.push_back({P_TICK, 2, 0});
     m.push_back({P_CLEANUP, 0, 0}); return m; };
   ex.run = [&](const std::vector<POp> &h, std::string &viol) {
-    vnow = 1000000; Loop *loop = Loop::New(eng); auto cl = static_cast<CommonLoop *>(loop); cl->timer_object_pool_.keep_number_ = 0;
+    Virt virt;
+    vnow = 1000000; Loop *loop = Loop::New(eng); auto cl = static_cast<CommonLoop *>(loop); if (!pooled) cl->timer_object_pool_.keep_number_ = 0;
     TimerPool *pool = new TimerPool(loop);
     struct T { TimerPool::TimerToken tok; bool persist; int iv; bool live; long long dl; long fires; int act; };
-    std::vector<T> ts; long long last_dl = -1;
-    std::function<int(bool, int, int)> add = [&](bool persist, int iv, int act) -> int {
+    std::vector<T> ts; long long last_dl = -1, now0 = vnow; int cleanups = 0;
+    // kind: 0 doEvery, 1 doAfter, 2 doAt(system_clock::now()+iv)
+    std::function<int(int, int, int)> add = [&](int kind, int iv, int act) -> int {
+      bool persist = kind == 0;
       int idx = (int)ts.size(); ts.push_back(T{TimerPool::TimerToken(), persist, iv, true, vnow + iv, 0, act});
       auto cb = [&, idx] {
         if (!viol.empty()) return; T &x = ts[idx];
@@ -115,29 +228,29 @@ static int pool_mode(const std::string &eng, size_t depth) {
         switch (ts[idx].act) {
           case PA_CANCEL_SELF: { bool r = pool->cancel(ts[idx].tok); if (ts[idx].persist) { if (!r) viol = "pool-cancel-self-false"; ts[idx].live = false; } } break;
           case PA_CANCEL_OLDER: if (idx > 0) { bool was = ts[idx - 1].live; bool r = pool->cancel(ts[idx - 1].tok); if (r != was) viol = "pool-cancel-answer-disagrees-with-liveness"; ts[idx - 1].live = false; } break;
-          case PA_CLEANUP_THEN_AFTER: pool->cleanup(); for (auto &u : ts) u.live = false; add(false, 1, PA_NONE); break;
-          case PA_ADD_AFTER: if (ts.size() < 6) add(false, 1, PA_NONE); break;
+          case PA_CLEANUP_THEN_AFTER: pool->cleanup(); cleanups++; for (auto &u : ts) u.live = false; add(1, 1, PA_NONE); break;
+          case PA_ADD_AFTER: if (ts.size() < 6) add(1, 1, PA_NONE); break;
+          case PA_SLOW_ADD_AFTER: vnow += 2; if (ts.size() < 6) add(1, 1, PA_NONE); break;      // the clock moves inside the callback: the new timer's interval starts at the new time
         } };
-      TimerPool::TimerToken tok = persist ? pool->doEvery(std::chrono::milliseconds(iv), cb) : pool->doAfter(std::chrono::milliseconds(iv), cb);
+      TimerPool::TimerToken tok = kind == 0 ? pool->doEvery(ms(iv), cb) : kind == 1 ? pool->doAfter(ms(iv), cb) : pool->doAt(std::chrono::system_clock::now() + ms(iv), cb);
       ts[idx].tok = tok; if (tok.isNull()) viol = "pool-null-token"; return idx; };
     std::vector<int> top;
     for (auto &o : h) { if (!viol.empty()) break;
       switch (o.k) {
-        case P_AT: { int idx = (int)ts.size(); ts.push_back(T{TimerPool::TimerToken(), false, o.a, true, vnow + o.a, 0, PA_NONE});
-          auto tp = std::chrono::system_clock::now() + std::chrono::milliseconds(o.a);
-          ts[idx].tok = pool->doAt(tp, [&, idx] { if (!viol.empty()) return; T &x = ts[idx]; if (!x.live) { viol = "pool-callback-after-cancel-or-cleanup"; return; } if (vnow < x.dl) { viol = "pool-fired-early"; return; } x.fires++; x.live = false; });
-          if (ts[idx].tok.isNull()) viol = "pool-null-token"; top.push_back(idx); } break;
-        case P_EVERY: top.push_back(add(true, o.a, o.b)); break;
-        case P_AFTER: top.push_back(add(false, o.a, o.b)); break;
+        case P_AT: top.push_back(add(2, o.a, o.b)); break;
+        case P_EVERY: top.push_back(add(0, o.a, o.b)); break;
+        case P_AFTER: top.push_back(add(1, o.a, o.b)); break;
         case P_CANCEL: { T &x = ts[top[o.a]]; bool r = pool->cancel(x.tok); if (r != x.live) viol = "pool-cancel-answer-disagrees-with-liveness"; x.live = false; } break;
-        case P_CLEANUP: pool->cleanup(); for (auto &u : ts) u.live = false; break;
-        case P_ADVANCE: vnow += o.a; last_dl = -1; pass(loop);
-          for (auto &u : ts) if (viol.empty() && u.live && u.dl <= vnow) viol = "pool-due-timer-did-not-fire";
+        case P_CLEANUP: pool->cleanup(); cleanups++; for (auto &u : ts) u.live = false; break;
+        case P_TICK: vnow += o.a; break;
+        case P_ADVANCE: vnow += o.a; now0 = vnow; last_dl = -1; pass(loop);
+          for (auto &u : ts) if (viol.empty() && u.live && u.dl <= now0) viol = "pool-due-timer-did-not-fire";
           break; }
     }
     std::string c; for (auto &u : ts) { char b[64]; snprintf(b, 64, "%d%d:%lld:%d:%d|", (int)u.live, (int)u.persist, u.live ? u.dl - vnow : 0, u.iv, u.act); c += b; }
-    std::vector<std::string> hp; for (auto *x : cl->timer_min_heap_) { char b[64]; snprintf(b, 64, "%lld/%llu/%llu", (long long)x->expired - vnow, (unsigned long long)x->interval, (unsigned long long)x->repeat); hp.push_back(b); }
-    std::sort(hp.begin(), hp.end()); for (auto &s : hp) c += s + ","; c += "#" + std::to_string(cl->timer_cabinet_.size());
+    c += heap_key(cl);
+    // the pool's own cabinet: cells, free list, id counter (cancel and cleanup leave different shapes), number of cleanups so far
+    c += "P" + cab_shape(pool->impl_->timers_, true) + "c" + std::to_string(std::min(cleanups, 2));
     delete pool; pass(loop); delete loop; return c; };
   ex.explore(depth); return 0;
 }
@@ -146,13 +259,15 @@ static int pool_mode(const std::string &eng, size_t depth) {
 // heap lane (engine I): n one-shot timers with intervals 1..n ms enabled in EVERY order, one of them then disabled or destroyed,
 // the clock then advanced 1 ms per pass: every remaining timer must fire exactly in the pass of its deadline, in deadline order.
 static int heap_mode(const std::string &eng, int n, int part, int nparts) {
+  Virt virt; const double deadline = real_now_s() + hx::env_int("VERIF_DEADLINE_S", 600);
   size_t runs = 0, bad = 0; std::vector<int> perm(n); for (int i = 0; i < n; i++) perm[i] = i + 1;
   size_t pi = 0;
   do { if ((int)(pi++ % (size_t)nparts) != part) continue;
+    if (real_now_s() > deadline) { printf("@CAP heap lane %s n=%d part %d: deadline reached after %zu runs\n", eng.c_str(), n, part, runs); break; }
     for (int victim = 0; victim < n; victim++) for (int how = 0; how < 2; how++) {
       vnow = 1000000; Loop *loop = Loop::New(eng); auto cl = static_cast<CommonLoop *>(loop); cl->timer_object_pool_.keep_number_ = 0;
       std::vector<TimerEvent *> tm(n); std::vector<long long> fired_at(n, -1); std::string viol; long long last_dl = -1;
-      for (int i = 0; i < n; i++) { tm[i] = loop->newTimerEvent("h"); tm[i]->initialize(std::chrono::milliseconds(perm[i]), Event::Mode::kOneshot);
+      for (int i = 0; i < n; i++) { tm[i] = loop->newTimerEvent("h"); tm[i]->initialize(ms(perm[i]), Event::Mode::kOneshot);
         tm[i]->setCallback([&, i] { if (i == victim) viol = "heap-removed-timer-fired"; if (fired_at[i] >= 0) viol = "heap-oneshot-fired-twice"; fired_at[i] = vnow;
           long long dl = 1000000 + perm[i]; if (vnow < dl) viol = "heap-fired-early"; if (dl < last_dl) viol = "heap-not-in-deadline-order"; last_dl = dl; });
         tm[i]->enable(); }
@@ -168,9 +283,50 @@ static int heap_mode(const std::string &eng, int n, int part, int nparts) {
   printf("@STAT states=%zu transitions=%zu executions=%zu violations=%zu\n", runs, runs * (size_t)(n + 1), runs, bad); return 0;
 }
 
+// heap lane B (engine I): n PERSISTENT timers with intervals 1..n ms enabled in EVERY order (so the re-arm path works on a 3-level heap),
+// the clock advanced 1 ms per pass for k+n+3 passes; at tick k (1..n) one victim is removed - at top level before the pass, or inside the first
+// callback of that pass that is not the victim's own - either destroyed, or disabled and enabled again two ticks later (removal, then an
+// insert into the changed heap). Reference: per-timer deadline, += interval per firing; checked inside every callback and after every pass.
+static int heapb_mode(const std::string &eng, int n, int part, int nparts, bool pooled) {
+  Virt virt; const double deadline = real_now_s() + hx::env_int("VERIF_DEADLINE_S", 600);
+  size_t runs = 0, passes = 0, bad = 0; std::vector<int> perm(n); for (int i = 0; i < n; i++) perm[i] = i + 1;
+  size_t pi = 0; const long long T0 = 1000000;
+  do { if ((int)(pi++ % (size_t)nparts) != part) continue;
+    if (real_now_s() > deadline) { printf("@CAP heap lane B %s n=%d part %d: deadline reached after %zu runs\n", eng.c_str(), n, part, runs); break; }
+    for (int victim = 0; victim < n; victim++) for (int k = 1; k <= n; k++) for (int how = 0; how < 2; how++) for (int place = 0; place < 2; place++) {
+      if (how == 1 && place == 0 && k > 1) continue;      // destroying at top level is the plain heap lane's subject; kept for k=1 only (after the first firings)
+      const int NTICK = k + n + 3;                        // long enough for every timer, and the re-enabled victim, to fire again after the removal
+      vnow = T0; Loop *loop = Loop::New(eng); auto cl = static_cast<CommonLoop *>(loop); if (!pooled) cl->timer_object_pool_.keep_number_ = 0;
+      std::vector<TimerEvent *> tm(n); std::vector<bool> en(n, true); std::vector<long long> dl(n); std::string viol; long long last_dl = -1; int tick = 0; bool removed = false; int removed_at = -1;
+      auto remove = [&] { removed = true; removed_at = tick; en[victim] = false; if (how == 0) tm[victim]->disable(); else { delete tm[victim]; tm[victim] = nullptr; } };
+      for (int i = 0; i < n; i++) { tm[i] = loop->newTimerEvent("h"); tm[i]->initialize(ms(perm[i]), Event::Mode::kPersist);
+        tm[i]->setCallback([&, i] { if (!viol.empty()) return;
+          if (!en[i]) { viol = tm[i] ? "heapb-disabled-timer-fired" : "heapb-destroyed-timer-fired"; return; }
+          if (vnow < dl[i]) { viol = "heapb-fired-early"; return; }
+          for (int u = 0; u < n; u++) if (en[u] && dl[u] < dl[i]) { viol = "heapb-not-in-deadline-order"; return; }
+          if (dl[i] < last_dl) { viol = "heapb-not-in-deadline-order"; return; } last_dl = dl[i]; dl[i] += perm[i];
+          if (place == 1 && !removed && tick >= k && i != victim) remove(); });
+        tm[i]->enable(); dl[i] = vnow + perm[i]; }
+      for (tick = 1; tick <= NTICK && viol.empty(); tick++) { vnow = T0 + tick;
+        if (place == 0 && !removed && tick == k) remove();
+        if (how == 0 && removed && !en[victim] && tick == removed_at + 2) { tm[victim]->enable(); en[victim] = true; dl[victim] = vnow + perm[victim]; }     // a fresh full interval
+        last_dl = -1; pass(loop); passes++;
+        for (int i = 0; i < n && viol.empty(); i++) { if (en[i] && dl[i] <= vnow) viol = "heapb-due-timer-did-not-fire"; if (tm[i] && tm[i]->isEnabled() != en[i]) viol = "heapb-isEnabled-mismatch"; } }
+      runs++;
+      if (!viol.empty() && bad++ < 3) { std::string d; for (int i = 0; i < n; i++) d += std::to_string(perm[i]) + " "; printf("@VIOL sig=%s :: %s%s: enable persistent timers with intervals [%s] in this order, advance 1 ms per pass; at tick %d %s #%d (interval %d) %s%s; failed at tick %d\n", viol.c_str(), eng.c_str(), pooled ? " (pooled records)" : "", d.c_str(), k, how ? "destroy" : "disable", victim, perm[victim], place ? "inside the first other callback of that pass" : "at top level before the pass", how ? "" : ", enable it again two ticks later", tick - 1); }
+      if (runs == 1) { std::string d; for (int i = 0; i < n; i++) d += std::to_string(perm[i]) + " "; printf("@SAMPLE heap lane B %s n=%d: order [%s] remove #%d at tick %d, %d passes\n", eng.c_str(), n, d.c_str(), victim, k, NTICK); }
+      for (auto *t : tm) delete t; pass(loop); delete loop;
+    }
+  } while (std::next_permutation(perm.begin(), perm.end()));
+  printf("@STAT states=%zu transitions=%zu executions=%zu violations=%zu\n", runs, passes, runs, bad); return 0;
+}
+
 int main(int argc, char **argv) {
-  if (argc > 1 && std::string(argv[1]) == "heap") { hx::install_crash_reporter("C02-crash"); hx::set_current("heap lane"); return heap_mode(argc > 2 ? argv[2] : "epoll", argc > 3 ? atoi(argv[3]) : 6, argc > 4 ? atoi(argv[4]) : 0, argc > 5 ? atoi(argv[5]) : 1); }
-  std::string mode = argc > 1 ? argv[1] : "timer", eng = argc > 2 ? argv[2] : "epoll"; size_t depth = argc > 3 ? atoi(argv[3]) : 5; int cfg = argc > 4 ? atoi(argv[4]) : 0; g_part = argc > 5 ? atoi(argv[5]) : 0; g_nparts = argc > 6 ? atoi(argv[6]) : 1;
+  std::string mode = argc > 1 ? argv[1] : "timer", eng = argc > 2 ? argv[2] : "epoll";
   hx::install_crash_reporter("C02-crash");
+  if (mode == "heap") { hx::set_current("heap lane"); return heap_mode(eng, argc > 3 ? atoi(argv[3]) : 6, argc > 4 ? atoi(argv[4]) : 0, argc > 5 ? atoi(argv[5]) : 1); }
+  if (mode == "heapb") { hx::set_current("heap lane B"); return heapb_mode(eng, argc > 3 ? atoi(argv[3]) : 6, argc > 4 ? atoi(argv[4]) : 0, argc > 5 ? atoi(argv[5]) : 1, argc > 6 && atoi(argv[6]) != 0); }
+  size_t depth = argc > 3 ? atoi(argv[3]) : 5; int cfg = argc > 4 ? atoi(argv[4]) : 0; g_part = argc > 5 ? atoi(argv[5]) : 0; g_nparts = argc > 6 ? atoi(argv[6]) : 1;
+  if (cfg < 0 || cfg >= NCFG) cfg = 0;
   return mode == "pool" ? pool_mode(eng, depth) : timer_mode(eng, depth, cfg);
 }
